@@ -193,6 +193,7 @@ class WSStream:
         self.state = ASGIWebsocketState.HANDSHAKE
         self.stream_id = stream_id
         self.too_large = False
+        self.client_close_code: Optional[int] = None
 
         self.connection: Connection
         self.handshake: Handshake
@@ -252,6 +253,8 @@ class WSStream:
             if self.app_put is not None:
                 if self.state in {ASGIWebsocketState.HTTPCLOSED, ASGIWebsocketState.CLOSED}:
                     code = CloseReason.NORMAL_CLOSURE.value
+                elif self.client_close_code is not None:
+                    code = self.client_close_code
                 else:
                     code = CloseReason.ABNORMAL_CLOSURE.value
                 await self.app_put({"type": "websocket.disconnect", "code": code})
@@ -333,6 +336,8 @@ class WSStream:
             elif isinstance(event, Ping):
                 await self._send_wsproto_event(event.response())
             elif isinstance(event, CloseConnection):
+                if self.state == ASGIWebsocketState.CONNECTED:
+                    self.client_close_code = int(event.code)
                 if self.connection.state == ConnectionState.REMOTE_CLOSING:
                     await self._send_wsproto_event(event.response())
                 await self.send(StreamClosed(stream_id=self.stream_id))
